@@ -257,10 +257,11 @@ static void check_solver_dispatch(int rule, vf::Case& c)
 }
 
 // One decoded case. mode 0: alphabet vector (the form the exhaustive layer enumerates),
-// mode 1: long vector with heavy ties, mode 2: solver dispatch.
+// mode 1: long vector with heavy ties, mode 2: solver dispatch, mode 3: values m * 10^e over the whole exponent range of double
+// (denormals up to the largest finite values, in particular magnitudes whose squares or sums of squares leave the range).
 static void run_case(vf::Draw& d, vf::Case& c)
 {
-    int mode = (int) d.range("mode", 0, 2);
+    int mode = (int) d.range("mode", 0, 3);
     int rule = (int) d.range("rule", 0, 8);
     if (mode == 2)
     {
@@ -270,7 +271,21 @@ static void run_case(vf::Draw& d, vf::Case& c)
     }
     int type = (int) d.range("type", 0, 1);
     int api = (int) d.range("api", 0, 2);
-    Index len = (Index) d.dim("len", 0, mode == 0 ? 7 : 200);
+    Index len = (Index) d.dim("len", 0, mode == 0 ? 7 : (mode == 3 ? 24 : 200));
+    // mode 3: a base exponent for the vector (tiny band, huge band, anywhere) and a small offset per value
+    long base_exp = 0;
+    if (mode == 3)
+    {
+        int band = (int) d.range("band", 0, 2);
+        base_exp = band == 0 ? d.range("E", -320, -150) : (band == 1 ? d.range("E", 150, 304) : d.range("E", -320, 304));
+        c.cls(band == 0 ? "wide_range/tiny" : (band == 1 ? "wide_range/huge" : "wide_range/any"));
+    }
+    auto wide = [&]() {
+        long m = d.range("m", -9, 9);
+        long e = std::min<long>(308, std::max<long>(-323, base_exp + d.range("off", -4, 4)));
+        double x = (double) m * std::pow(10.0, (double) e);
+        return std::isfinite(x) ? x : (m < 0 ? -std::numeric_limits<double>::max() : std::numeric_limits<double>::max());
+    };
     Index extra = (api == 2) ? (Index) d.range("extra", 1, 3) : 0;
     std::ostringstream os;
     os << (type ? "complex" : "real") << " rule=" << RULE_NAMES[rule] << " api=" << api << " len=" << len << " vals=[";
@@ -282,6 +297,8 @@ static void run_case(vf::Draw& d, vf::Case& c)
             double x;
             if (mode == 0)
                 x = REAL_ALPHA[d.range("a", 0, 6)];
+            else if (mode == 3)
+                x = wide();
             else
                 x = (double) d.range("v", -6, 6) * (d.flag("half") ? 0.5 : 1.0);
             vals.push_back(x);
@@ -301,6 +318,11 @@ static void run_case(vf::Draw& d, vf::Case& c)
             cd x;
             if (mode == 0)
                 x = CPLX_ALPHA[d.range("a", 0, 7)];
+            else if (mode == 3)
+            {
+                double re = wide(), im = wide();
+                x = cd(re, im);
+            }
             else
                 x = cd((double) d.range("re", -3, 3), (double) d.range("im", -3, 3));
             vals.push_back(x);
